@@ -34,6 +34,7 @@ def _stamp(shape: Tuple[int, int], block: np.ndarray, r: int, c: int) -> np.ndar
 
 class A(Adapter):
     name = "FlatPack"
+    run_scale = 1
     mask_mode = "joint"
     fork_every = 1  # episodes last num_blocks steps and the reset state has no illegal action: fork at every visited state
     has_invalid_effect = True
